@@ -27,6 +27,25 @@ KEY_MIDCALL = "C18:midcall-adaptive-update"
 def corr(rep: C.Report, tier: str):
     import c18_ref as R
     R.M.helpers.derivative = R.fake_derivative
+    try:
+        lines, outs, marks, nseq = _histories(rep, tier, R)
+    finally:
+        R.M.helpers.derivative = R.REAL_DERIV        # undo the provenance wrapper (also when the reference raised): the search uses the plain class
+    lo = C.lean_run("InterpQ", lines, timeout=1800)
+    badseeds = {}
+    for i, (ln, o) in enumerate(zip(lines, outs)):
+        lv = lo[i] if i < len(lo) else "<missing>"
+        if not R.same(o, lv) and marks[i] not in badseeds:
+            j0 = max(0, i - 10)
+            badseeds[marks[i]] = [{"op": lines[j], "real": outs[j], "model": lo[j] if j < len(lo) else None}
+                                  for j in range(j0, i + 1) if marks[j] == marks[i]]
+    rep.obligation("correspondence Model.Interp = real InterpolatableFunction on random operation histories "
+                   "(outputs with provenance + full state after every op)", "correspondence", not badseeds,
+                   f"{nseq} histories, {len(lines)} lines, {len(badseeds)} diverging")
+    rep.extra["diverging_histories"] = list(badseeds.values())[:2]
+
+
+def _histories(rep, tier, R):
     nseq, nops = (120, 14) if tier == "quick" else (3000, 22)
     lines, outs, marks = [], [], []
     seed0 = C.SEED * 100000
@@ -54,19 +73,7 @@ def corr(rep: C.Report, tier: str):
             lines.append("get")
             outs.append(ref.do("get"))
             marks.append(sd)
-    R.M.helpers.derivative = R.REAL_DERIV        # undo the provenance wrapper: the search below uses the plain class
-    lo = C.lean_run("InterpQ", lines, timeout=1800)
-    badseeds = {}
-    for i, (ln, o) in enumerate(zip(lines, outs)):
-        lv = lo[i] if i < len(lo) else "<missing>"
-        if not R.same(o, lv) and marks[i] not in badseeds:
-            j0 = max(0, i - 10)
-            badseeds[marks[i]] = [{"op": lines[j], "real": outs[j], "model": lo[j] if j < len(lo) else None}
-                                  for j in range(j0, i + 1) if marks[j] == marks[i]]
-    rep.obligation("correspondence Model.Interp = real InterpolatableFunction on random operation histories "
-                   "(outputs with provenance + full state after every op)", "correspondence", not badseeds,
-                   f"{nseq} histories, {len(lines)} lines, {len(badseeds)} diverging")
-    rep.extra["diverging_histories"] = list(badseeds.values())[:2]
+    return lines, outs, marks, nseq
 
 
 def search(rep: C.Report, tier: str, broken):
